@@ -59,7 +59,7 @@ pub fn exec(input: &Value) -> Value {
     });
     let mut case = input.clone();
     let obj = case.as_object_mut().unwrap();
-    obj.insert("aux".into(), gen_schema::float_strings(&input["rows"]));
+    obj.insert("aux".into(), gen_schema::aux_for(&input["schema"], &input["rows"]));
     obj.insert("impl".into(), imp);
     obj.insert("arrow".into(), Value::Array(arrow_check));
     case
